@@ -98,8 +98,14 @@ def m0_result_is_fresh(prog, ctx, rule="M0"):
                     == r.j["name"] and d is not None and not d.is_null_const()]
             if not srcs:
                 continue            # only ever NULL
-        bad = [x for x in srcs if any(re.search(r"(?<![\w>.])%s(?![\w])" % re.escape(p9), render(x)) for p9 in ins)]
-        fresh = [x for x in srcs if x.strip().k == "CallExpr" and x.strip().j.get("callee") in ("calloc", "malloc")]
+        def is_input(x):
+            x0 = x.strip()
+            while x0.k == "UnaryOperator" and x0.j.get("op") in ("&", "*") and x0.children:
+                x0 = x0.children[0].strip()
+            return x0.k == "DeclRefExpr" and x0.j.get("name") in ins
+        bad = [x for x in srcs if is_input(x)]
+        ma9 = ModAnalysis(prog, indirect_targets=indirect_table(prog))
+        fresh = [x for x in srcs if (x.strip().k == "CallExpr" and x.strip().j.get("callee") in ("calloc", "malloc")) or ma9.is_fresh_expr(m, x.strip(), at=st)[0]]
         if bad:
             ctx.fail(rule, "the merge result is a new object", st.where,
                      "`%s`: one of the inputs is handed out as the result - the caller of the layered read frees that input right after the merge "
